@@ -480,7 +480,42 @@ def rule_e1_roles(ck, agg, f, fi):
     ar = arity(f)
     inst = f.cls.replace("FEAT::LAFEM::", "")
     blocked_m = tmpl(f.cls) in BLOCKED
-    cnf_, fl_ = reach_map(f, fi)
+    # "r is the zero vector here": established by r.format() / r.format(0), lost by any other mutable use of r
+    def _is_r(a):
+        a = fi.resolve(a)
+        if a is not None and a.get("k") == "Ref" and a.get("dk") == "param" and fi.pindex.get(a.get("d")) == 0:
+            return True
+        r_ = fi.role(a)
+        return r_[0] == "vec" and r_[1] == 0 and r_[2] == "elements"
+    rz_at = {}
+
+    def on_simple(node, st):
+        for x in walk(node):
+            k_ = x.get("k")
+            if k_ == "MCall" and _is_r(x.get("obj")) and x.get("n") == "format" and (not x.get("a") or fi.role(x["a"][0]) == ("const", 0.0)):
+                st = dict(st, rz=st["reach"])
+            elif k_ == "Call" and ARCH_APPLY.match(x.get("callee", "") or ""):
+                rz_at[id(x)] = st["rz"]
+                st = dict(st, rz=F)
+            elif k_ == "MCall" and _is_r(x.get("obj")) and not x.get("cconst") and x.get("n") not in ("elements", "size") \
+                    and not (x.get("n") in ("copy", "convert") and x.get("a") and _is_r(x["a"][0])):
+                st = dict(st, rz=F)
+            elif k_ in ("Call", "MCall", "Construct", "TempObj") and any(_is_r(a_) for a_ in x.get("a", [])) and not re.search(r"^FEAT::assertion$", x.get("callee", "") or ""):
+                pts_ = x.get("pt", [])
+                for i_, a_ in enumerate(x.get("a", [])):
+                    t_ = f.type(pts_[i_]).strip() if i_ < len(pts_) else ""
+                    if _is_r(a_) and not t_.startswith("const "):
+                        st = dict(st, rz=F)
+        return st
+    cnf_ = make_cnf(f, fi)
+    fl_ = Flow(cnf_, tags=("reach", "rz"), on_simple=on_simple)
+    fl_.run(f.body, {"reach": T, "rz": F})
+
+    def r_is_zero_at(c):
+        try:
+            return f_sat(f_and(fl_.reach.get(id(c), T), f_not(rz_at.get(id(c), F))), cnf_.exclusions()) is None
+        except TooManyAtoms:
+            return False
     for c in arch_calls(f):
         try:
             if f_sat(fl_.reach.get(id(c), T), cnf_.exclusions()) is None:
@@ -524,6 +559,8 @@ def rule_e1_roles(ck, agg, f, fi):
                     ok, want = (r == ("const", 1.0)), "1 (4-operand form: r = alpha*A*x + 1*y)"
                 else:
                     ok, want = (r == ("const", 0.0)), "0 (2-operand form: r = 1*A*x + 0*r)"
+                    if not ok and r == ("const", 1.0) and "y" in roles and roles["y"][0] == "vec" and roles["y"][1] == 0 and roles["y"][2] == "elements" and r_is_zero_at(c):
+                        ok = True         # r.format(); r <- r + 1*A*x: the 2-operand form forwarding to its 4-operand sibling with y := r
             elif slot in THIS_SLOTS:
                 ok = r[0] == "this" and r[1] in THIS_SLOTS[slot]
                 want = "this->%s()" % THIS_SLOTS[slot][0]
@@ -633,7 +670,17 @@ def make_cnf(f, fi):
     """condition normal form of function f (see lib/norm_c01.py): constants are decided by fi.role"""
     def const_value(n):
         r = fi.role(n)
-        return r[1] if r[0] == "const" else None
+        if r[0] == "const":
+            return r[1]
+        m = fi.resolve(n) if n is not None else None
+        if m is not None and m.get("k") == "Call":
+            cal = m.get("callee", "") or ""
+            if cal.endswith("Math::abs") and len(m.get("a", [])) == 1:
+                v = const_value(m["a"][0])
+                return abs(v) if v is not None else None
+            if cal.endswith("Math::eps") and not m.get("a"):
+                return 1e-16          # a tiny positive number: only compared with literal constants (alpha := 1 in a forwarded call)
+        return None
     return CondNF(f, fi.resolve, const_value)
 
 
@@ -675,6 +722,7 @@ class ZeroAtoms:
         self.names = {}
         self.strict, self.le, self.exact = [], [], []      # |alpha| < eps, eps < |alpha| (negated: |alpha| <= eps), alpha == 0
         self.alpha_other = []     # unrecognised atoms that mention alpha
+        self.mutable = []         # atoms over assigned locals
         self.recognised = set()
         for key, info in list(self.cnf.atom_info.items()):
             kind = info.get("kind")
@@ -683,6 +731,12 @@ class ZeroAtoms:
                 if r[0] == "this" and r[1] in self.EXTENTS:
                     self.zero.append(f_atom(key))
                     self.names[key] = "this->%s() == 0" % r[1]
+                    self.recognised.add(key)
+                    continue
+                if r[0] == "vec" and r[2] == "size" and r[1] in (0, 1, 2):
+                    # an empty operand: by the function's own guards an extent of the matrix is 0
+                    self.zero.append(f_atom(key))
+                    self.names[key] = "%s.size() == 0" % "rxy"[r[1]]
                     self.recognised.add(key)
                     continue
                 if ar == 4 and r == ("param", 3):
@@ -706,6 +760,10 @@ class ZeroAtoms:
                     continue
             if ar == 4 and any(_mentions_param(fi, info.get(k_), 3) for k_ in ("e", "a", "b")):
                 self.alpha_other.append(key)
+            # tests of mutable local state (bookkeeping flags): correlated with the branches that set them, never free
+            if kind not in ("loop", "case") and any(x.get("k") == "Ref" and x.get("dk") == "local" and x.get("d") in fi.assigned
+                                                    for k_ in ("e", "a", "b") if isinstance(info.get(k_), dict) for x in walk(info[k_])):
+                self.mutable.append(key)
             self.names.setdefault(key, self._name(key, info))
 
     @staticmethod
@@ -971,6 +1029,8 @@ def rule_e7(ck, agg, f, fi, bydecl):
                     early[n["i"]] = (n, "format" if v == ("const", 0.0) else "format-nonzero")
                 elif nm in ("copy", "convert") and n.get("a"):
                     src = fi.role(n["a"][0])
+                    if src == ("param", 0):
+                        continue          # r.copy(r) (a 4-operand sibling inlined with y := r): no-op
                     early[n["i"]] = (n, "copy-y" if src == ("param", 2) else "copy-other:" + role_str(src))
                 elif nm in ("elements", "size"):
                     pass
@@ -1045,11 +1105,26 @@ def _rule_e7_decide(ck, agg, f, fi, bydecl, key, inst, ar, cnf, fl, za, cons, ke
         for k_, info in cnf.atom_info.items():
             if info.get("kind") == "eq" and {_opnd(info["a"]), _opnd(info["b"])} == {0, 2}:
                 same[k_] = False
+    # an empty result operand needs no definition: r.size() == this->rows() (columns() when transposing) is the function's own
+    # guard (rule E1.guard), so `if (rows() == 0) return;` defines all zero entries of r
+    rext = "columns" if is_transposed(f) else "rows"
+    for k_, info in cnf.atom_info.items():
+        if info.get("kind") == "z":
+            r_ = fi.role(info["e"])
+            if (r_[0] == "this" and r_[1] == rext) or (r_[0] == "vec" and r_[1] == 0 and r_[2] == "size"):
+                same[k_] = False
+    dep_exit = None
+    fixc = f_and(cons, *[f_atom(k_) if v_ else f_not(f_atom(k_)) for k_, v_ in same.items()])
     for node, st in fl.exits:
-        w = f_sat(st["undef"], cons, fixed=same)
-        if w is not None:
+        verdict, w = decide(st["undef"], fixc, universal=[k_ for k_ in za.mutable if k_ in f_atoms(st["undef"])])
+        if verdict == "sat":
             bad_exit = (node, w)
             break
+        if verdict == "depends" and dep_exit is None:
+            dep_exit = (node, w)
+    if bad_exit is None and dep_exit is not None:
+        ck.incomplete("E7.exit-defines-r", "%s: whether r is defined at %s depends on local bookkeeping state (%s): not modelled" % (
+            key, ("the return at line %s" % dep_exit[0].get("l")) if dep_exit[0] is not None else "the end of the function", za.witness({k_: v_ for k_, v_ in dep_exit[1].items() if k_ in za.mutable})))
     ok = bad_exit is None
     detail = "every normal exit is preceded by a definition of r (%d kernel call(s), %d early-out(s))" % (len(kernel_defs), len(good_early))
     line = f.line
@@ -1142,10 +1217,10 @@ def _rule_e7_decide(ck, agg, f, fi, bydecl, key, inst, ar, cnf, fl, za, cons, ke
                 continue                      # E1.role reports a wrong alpha operand
             small = za.alpha_small()
             target = rc if small is None else f_and(rc, small)
-            verdict, w = decide(target, cons, universal=[k_ for k_ in za.alpha_other if k_ in f_atoms(target)])
+            verdict, w = decide(target, cons, universal=[k_ for k_ in set(za.alpha_other) | set(za.mutable) if k_ in f_atoms(target)])
             if verdict == "depends":
-                ck.incomplete("E7.alpha-guard", "%s: the kernel call is guarded by a test on alpha the rule does not recognise (%s)" % (
-                    key, "; ".join(za.names.get(k_, str(k_)) for k_ in za.alpha_other)[:160]))
+                ck.incomplete("E7.alpha-guard", "%s: the kernel call is guarded by a test on alpha / on local state the rule does not recognise (%s)" % (
+                    key, "; ".join(za.names.get(k_, str(k_)) for k_ in za.alpha_other + za.mutable)[:160]))
                 continue
             ok = verdict == "unsat"
             agg.add("E7.alpha-guard", akey, ok,
@@ -1763,6 +1838,12 @@ def rule_alias(ck, agg, facts, bydecl=None):
             par = fi.parent.get(id(n))
             while par is not None and par.get("k") == "Cast":
                 par = fi.parent.get(id(par))
+            # pointer arithmetic in an argument position (std::copy(y, y + n, r)): look at the enclosing call
+            while par is not None and par.get("k") == "Bin" and par.get("op") in ("+", "-") and "*" in f.ntype(par) \
+                    and (fi.parent.get(id(par)) or {}).get("k") in ("Call", "Cast", "Bin"):
+                par = fi.parent.get(id(par))
+                while par is not None and par.get("k") == "Cast":
+                    par = fi.parent.get(id(par))
             if par is None:
                 continue
             pk = par.get("k")
@@ -1804,6 +1885,16 @@ def rule_alias(ck, agg, facts, bydecl=None):
                         writes.append({"kind": "whole", "node": par, "idx": None})
                         continue
                     if ai == 1 and who == "y" and cal.endswith("::copy"):
+                        reads.append({"kind": "whole", "node": par, "idx": None})
+                        continue
+                if (STD_FILL.match(cal) or STD_COPY.match(cal) or C_MEM.match(cal)) and ai is not None:
+                    # std::fill(r, r+n, v) / fill_n(r, n, v) / memset(r, ..): whole write; std::copy(y, y+n, r) / copy_n(y, n, r) /
+                    # memcpy(r, y, n): one call that reads y and writes r
+                    dst = (2,) if STD_COPY.match(cal) else ((0, 1) if cal.endswith("::fill") else (0,))
+                    if who == "r" and ai in dst:
+                        writes.append({"kind": "whole", "node": par, "idx": None})
+                        continue
+                    if who == "y" and not STD_FILL.match(cal) and ai not in dst:
                         reads.append({"kind": "whole", "node": par, "idx": None})
                         continue
                 if who == "r":
@@ -1899,12 +1990,16 @@ def rule_alias(ck, agg, facts, bydecl=None):
                     inc.append("element write to r (line %s) precedes a whole read of y (line %s)" % (wl, rl))
                     continue
                 Lw = loop_of(w["node"])
-                lbr = loop_bound(fi, Lr) if Lr is not None and Lr.get("k") == "For" else None
-                lbw = loop_bound(fi, Lw) if Lw is not None and Lw.get("k") == "For" else None
+                lbr = loop_bound(fi, Lr) if Lr is not None and Lr.get("k") in ("For", "While") else None
+                lbw = loop_bound(fi, Lw) if Lw is not None and Lw.get("k") in ("For", "While") else None
                 r_ind = lbr is not None and fi.resolve(rd["idx"]).get("k") == "Ref" and fi.resolve(rd["idx"]).get("d") == lbr[0]
                 w_ind = lbw is not None and fi.resolve(w["idx"]).get("k") == "Ref" and fi.resolve(w["idx"]).get("d") == lbw[0]
                 if Lw is not None and Lw is Lr and r_ind and w_ind:
-                    inc_id = (Lr.get("inc") or {}).get("i")
+                    if Lr.get("k") == "While":
+                        lst_ = (Lr.get("body") or {}).get("s", []) or [{}]
+                        inc_id = lst_[-1].get("i")
+                    else:
+                        inc_id = (Lr.get("inc") or {}).get("i")
                     same_iter = any(True for Aw in acfg.reach(cfg.entry, 0, {}, wpos) for _ in acfg.reach(wpos[0], wpos[1] + 1, Aw, rpos, avoid={inc_id})) and not same_stmt
                     if same_iter:
                         bad.append("r[%s] is written (line %s) before y[%s] is read (line %s) in the same loop iteration: wrong when r aliases y" % (render(w["idx"]), wl, render(rd["idx"]), rl))
@@ -1929,18 +2024,118 @@ def rule_alias(ck, agg, facts, bydecl=None):
 # E2-light on the generic kernels
 # --------------------------------------------------------------------------------------------------
 
-def loop_bound(fi, loop):
-    """for(I v(0|lo); v < B; ++v) -> (var decl id, lo node, B node) or None"""
-    init, c, inc = loop.get("init"), loop.get("c"), loop.get("inc")
-    if not init or init.get("k") != "Decl" or len(init.get("vars", [])) != 1 or not c or c.get("k") != "Bin" or c.get("op") != "<":
+def _is_var(n, d):
+    return n is not None and n.get("k") == "Ref" and n.get("d") == d
+
+
+def _is_step_up(fi, n, d):
+    """++v, v++, v += 1, v = v + 1"""
+    if n is None:
+        return False
+    if n.get("k") == "Bin" and n.get("op") == ",":
+        # ++v, ++p: exactly one of the comma operands steps v
+        parts, st = [], [n]
+        while st:
+            x = st.pop()
+            if x.get("k") == "Bin" and x.get("op") == ",":
+                st += [x["lhs"], x["rhs"]]
+            else:
+                parts.append(x)
+        touching = [x for x in parts if any(_is_var(y, d) for y in walk(x))]
+        return len(touching) == 1 and _is_step_up(fi, touching[0], d)
+    if n.get("k") == "Un" and n.get("op") == "++":
+        return _is_var(n.get("e"), d)
+    if n.get("k") == "Assign" and n.get("op") == "+=":
+        return _is_var(n.get("lhs"), d) and fi.role(n["rhs"]) == ("const", 1.0)
+    if n.get("k") == "Assign" and n.get("op") == "=" and _is_var(n.get("lhs"), d):
+        r = n["rhs"]
+        while r.get("k") == "Cast":
+            r = r["e"]
+        if r.get("k") == "Bin" and r.get("op") == "+":
+            return (_is_var(r["lhs"], d) and fi.role(r["rhs"]) == ("const", 1.0)) or (_is_var(r["rhs"], d) and fi.role(r["lhs"]) == ("const", 1.0))
+    return False
+
+
+def _upper_bound(c, d):
+    """condition v < B | B > v | v != B  ->  B"""
+    if c is None or c.get("k") != "Bin":
         return None
-    v = init["vars"][0]
-    l = c["lhs"]
-    if not (l.get("k") == "Ref" and l.get("d") == v["d"]):
+    if c.get("op") in ("<", "!=") and _is_var(c["lhs"], d):
+        return c["rhs"]
+    if c.get("op") in (">", "!=") and _is_var(c["rhs"], d):
+        return c["lhs"]
+    return None
+
+
+def loop_bound(fi, loop, allow_reverse=False):
+    """the counting loop  for(I v(lo); v < B; ++v)  in any of its spellings (v != B, B > v; v++, v += 1, v = v + 1; the same
+    induction written as  I v(lo); while(v < B) { ...; ++v; }  with the step as the last statement of the body and no other
+    assignment to v) -> (var decl id, lo node, B node) or None"""
+    k = loop.get("k")
+    if k == "For" and allow_reverse and loop.get("inc") is None:
+        # the repository's own idiom for a descending loop over [0, B):  for(I v(B); v > 0; ) { --v; ... }
+        init, c = loop.get("init"), loop.get("c")
+        body = loop.get("body") or {}
+        st = body.get("s", []) if body.get("k") == "Block" else [body]
+        if init and init.get("k") == "Decl" and len(init.get("vars", [])) == 1 and c is not None and c.get("k") == "Bin" and st:
+            v = init["vars"][0]
+            down = st[0].get("k") == "Un" and st[0].get("op") == "--" and _is_var(st[0].get("e"), v["d"])
+            cond = (c.get("op") in (">", "!=") and _is_var(c["lhs"], v["d"]) and fi.role(c["rhs"]) == ("const", 0.0)) or \
+                   (c.get("op") == "<" and _is_var(c["rhs"], v["d"]) and fi.role(c["lhs"]) == ("const", 0.0))
+            others = [x for x in walk(body) if x is not st[0] and ((x.get("k") == "Assign" and _is_var(x.get("lhs"), v["d"])) or
+                                                                   (x.get("k") == "Un" and x.get("op") in ("++", "--", "&") and _is_var(x.get("e"), v["d"])))]
+            if down and cond and not others and v.get("init") is not None and not any(x.get("k") == "Continue" for x in walk(body)):
+                return (v["d"], {"k": "Int", "v": "0", "l": loop.get("l")}, v["init"])
         return None
-    if not (inc and inc.get("k") == "Un" and inc.get("op") == "++" and inc["e"].get("d") == v["d"]):
-        return None
-    return (v["d"], v.get("init"), c["rhs"])
+    if k == "For":
+        init, c, inc = loop.get("init"), loop.get("c"), loop.get("inc")
+        if not init or init.get("k") != "Decl" or len(init.get("vars", [])) != 1:
+            return None
+        v = init["vars"][0]
+        hi = _upper_bound(c, v["d"])
+        if hi is None or not _is_step_up(fi, inc, v["d"]):
+            return None
+        if c.get("op") == "!=" and fi.role(v.get("init")) != ("const", 0.0):
+            return None
+        if any(x is not inc and ((x.get("k") == "Assign" and _is_var(x.get("lhs"), v["d"])) or (x.get("k") == "Un" and x.get("op") in ("++", "--") and _is_var(x.get("e"), v["d"])))
+               for x in walk(loop.get("body"))):
+            return None
+        return (v["d"], v.get("init"), hi)
+    if k == "While":
+        c = loop.get("c")
+        if c is None or c.get("k") != "Bin":
+            return None
+        cand = c["lhs"] if c.get("op") in ("<", "!=") else c["rhs"] if c.get("op") == ">" else None
+        if cand is None or cand.get("k") != "Ref" or cand.get("dk") != "local" or cand.get("d") not in fi.vars:
+            return None
+        d = cand["d"]
+        hi = _upper_bound(c, d)
+        body = loop.get("body") or {}
+        st = body.get("s", []) if body.get("k") == "Block" else [body]
+        if hi is None or not st or not _is_step_up(fi, st[-1], d):
+            return None
+        steps = [x for x in walk(body) if (x.get("k") == "Assign" and _is_var(x.get("lhs"), d)) or (x.get("k") == "Un" and x.get("op") in ("++", "--") and _is_var(x.get("e"), d))]
+        if len(steps) != 1 or any(x.get("k") in ("Continue",) for x in walk(body)):
+            return None
+        # the only other definition of v is its declaration, which must be a sibling statement before the loop
+        par = fi.parent.get(id(loop))
+        sib = par.get("s", []) if par is not None and par.get("k") == "Block" else []
+        decl_ok = False
+        for x in sib:
+            if x is loop:
+                break
+            if x.get("k") == "Decl" and any(v.get("d") == d for v in x.get("vars", [])):
+                decl_ok = True
+            elif decl_ok and any(y.get("k") == "Ref" and y.get("d") == d for y in walk(x)):
+                decl_ok = False                      # v is touched between declaration and loop: give up
+                break
+        others = [x for x in fi.fn.nodes() if ((x.get("k") == "Assign" and _is_var(x.get("lhs"), d)) or (x.get("k") == "Un" and x.get("op") in ("++", "--", "&") and _is_var(x.get("e"), d))) and x is not steps[0]]
+        if not decl_ok or others:
+            return None
+        if c.get("op") == "!=" and fi.role(fi.vars[d].get("init")) != ("const", 0.0):
+            return None
+        return (d, fi.vars[d].get("init"), hi)
+    return None
 
 
 STD_FILL = re.compile(r"^std::(fill|fill_n)$")
@@ -2089,8 +2284,8 @@ def _rule_e2_kernel(ck, agg, f, fi, key, dfile, alias_viol, bydecl):
             cur = n
             while id(cur) in fi.parent:
                 p = fi.parent[id(cur)]
-                if p.get("k") == "For":
-                    lb = loop_bound(fi, p)
+                if p.get("k") in ("For", "While"):
+                    lb = loop_bound(fi, p, allow_reverse=True)
                     if lb is not None and p.get("body") is not None and (cur is p["body"] or cur is not p.get("init")):
                         d, lo, hi = lb
                         kinds[d] = ("loop", lo, hi)
@@ -2334,6 +2529,15 @@ def _rule_e2_kernel(ck, agg, f, fi, key, dfile, alias_viol, bydecl):
         for pz in bz_pos:
             for ng in bz_neg:
                 cons = f_and(cons, f_not(f_and(f_atom(pz), f_atom(ng))))
+        # an empty r needs no initialisation (`if (rows == 0) return;` shortcut): assume the extent of r is non-zero
+        for akey, info in list(cnf.atom_info.items()):
+            if info.get("kind") == "z":
+                r_ = fi.role(info["e"])
+                nm_ = f.params[r_[1]]["n"] if r_[0] == "param" else None
+                if nm_ == "rows" and not transposed_kernel:
+                    cons = f_and(cons, f_or(tform, f_not(f_atom(akey))) if tform is not None else f_not(f_atom(akey)))
+                elif nm_ == "columns" and (transposed_kernel or tform is not None):
+                    cons = f_and(cons, f_or(f_not(tform), f_not(f_atom(akey))) if tform is not None else f_not(f_atom(akey)))
         if bz_pos or bz_neg:
             Bz = f_and(*([f_atom(k_) for k_ in bz_pos] + [f_not(f_atom(k_)) for k_ in bz_neg]))
         else:
@@ -2577,7 +2781,7 @@ def rule_banded(ck, agg, tier):
 
             def bound(n, fn_name):
                 n = fi.resolve(n)
-                if n.get("k") == "Call" and n.get("callee", "").endswith("Math::" + fn_name) and len(n.get("a", [])) == 2:
+                if n.get("k") == "Call" and re.search(r"(^|::)(Math|std)::%s$" % fn_name, n.get("callee", "") or "") and len(n.get("a", [])) == 2:
                     ts = [term(a) for a in n["a"]]
                     if all(t is not None for t in ts) and {t[0] for t in ts} == set(BAND_HELPERS):
                         return {t[0]: t for t in ts}
@@ -2679,11 +2883,13 @@ def run(tier):
     ck.rule("E1.dispatch", "every Arch::Apply::X dispatch wrapper forwards its own parameters position by position to X_generic/_mkl/_cuda (breaks for every product through that wrapper)", 9)
     ck.rule("E1.guard", "each dimension guard XASSERT(v.size() == this->rows|columns<P>()) states the role assignment of the product: r,y <-> rows, x <-> columns, swapped when "
             "transposing, in the unit (scalars/blocks) of the operand type (a wrong guard aborts admissible rectangular / blocked inputs)", 141)
-    ck.rule("E7.exit-defines-r", "in every scalar container apply*, every normal exit is preceded on all paths by a definition of r: the kernel call with r in slot r, "
-            "r.format() (2-operand) or r.copy(y)/r.convert(y) (4-operand) (breaks for matrices without entries, alpha = 0)", 36)
-    ck.rule("E7.early-out", "an early-out that is the final definition of r has the form of its arity (format / copy(y)) and is taken only under a disjunction of "
-            "zero-product conditions (used_elements()==0, rows()/columns()==0, |alpha|<eps)", 32)
-    ck.rule("E7.alpha-guard", "a kernel that divides by a (transposed CSR/CSCR/BCSR kernels compute b/a) is unreachable when |alpha| < eps (alpha = 0 would give inf/NaN)", 7)
+    ck.rule("E7.exit-defines-r", "in every scalar container apply*, every normal exit is preceded on all feasible paths by a definition of r: the kernel call with r in slot r, "
+            "r.format() (2-operand) or r.copy(y)/r.convert(y) (4-operand); path conditions are formulas over canonical condition atoms of the function with its class helpers "
+            "inlined (early return, if/else, negated conditions, predicate helpers are the same program); an empty r needs no definition (breaks for matrices without entries, alpha = 0)", 36)
+    ck.rule("E7.early-out", "an early-out that is the final definition of r has the form of its arity (format / copy(y)) and the condition under which it is the final definition "
+            "implies a zero product (used_elements()==0, rows()/columns()==0, |alpha|<eps, alpha==0)", 32)
+    ck.rule("E7.alpha-guard", "a kernel that divides by a (transposed CSR/CSCR/BCSR kernels compute b/a) is unreachable when |alpha| < eps (alpha = 0 would give inf/NaN): the path "
+            "condition of the call excludes |alpha| < eps, or the kernel reaches its division only behind its own |a| < eps test", 7)
     ck.rule("C6.inputs-const", "every apply* is a const member taking x and y as const references and contains no cast that removes constness (inputs are never modified)", 132)
     ck.rule("C6.early-out-copy", "a 4-operand early-out defines r by a VALUE copy of y (MemoryPool::copy into r's own array), never by an operation that stores y's element pointer in r "
             "(shallow convert/assign): decided on the resolved callee body (admissible input: alpha = 0 or an entry-free matrix, followed by any write to r — y must stay unmodified)", 19)
@@ -2710,7 +2916,10 @@ def run(tier):
     ck.rule("E2.kernel-returns", "every *_generic kernel has a normal exit (an operation the container offers must not abort unconditionally)", 9)
     ck.rule("E2.kernel-kinds", "in the CSR/CSCR/BCSR/CSRSB/dense generic kernels r is subscripted by Row-kind and x by Col-kind indices (swapped when transposing), "
             "val/col_ind by the row_ptr segment of a Row index (breaks for rectangular shapes, empty rows)", 7)
-    ck.rule("E2.kernel-init", "the set_memory/copy initialisation of r covers exactly the extent of r: rows (columns when transposed) times the block size of r", 7)
+    ck.rule("E2.kernel-init", "every generic kernel initialises r before accumulating into it: for |b| < eps (the 2-operand forms pass b = 0 and y = r, so the old content of r must "
+            "not enter the result) r is zero-filled on every path, for b != 0 and r != y the summand y is copied into r, each over exactly the extent of r: rows (columns when "
+            "transposed) times the block size of r.  Decided on path conditions of the kernel with its helpers inlined; MemoryPool::set_memory/copy, std::fill/fill_n/copy/copy_n and "
+            "the hand loops r[i] = 0 / r[i] = y[i] are the same initialisation (admissible input: r holding NaN/inf before a 2-operand call; r != y in a 4-operand call)", 8)
 
     drvdir = os.path.join(featlib.VERIF, "tu") + "/c01_"
     extra = ("-DC01_THOROUGH",) if tier == "thorough" else ()
